@@ -223,6 +223,11 @@ func (p *Prop[C]) SafeCheck(c C, o *Obs) (f *Fail) {
 				if _, ok := r.(decimal.ErrNaN); ok {
 					cls = "unexpected-ErrNaN"
 				}
+				if m, ok := r.(string); ok && strings.HasPrefix(m, "model:") {
+					// the reference model refused an input outside its cost
+					// bounds: a generator slip, not a verdict on the code
+					cls = "INFRA-model"
+				}
 				st := string(debug.Stack())
 				if len(st) > 2500 {
 					st = st[:2500]
